@@ -112,7 +112,12 @@ func newClientDialer(addr string, mode ClientMode, dialer *net.Dialer, logger lo
 	c.conns.Store(newClientConns())
 
 	if mode == ClientMode_AutoConnect {
+		// The connect routine clears its registration under the mutex when it finishes,
+		// hold the mutex so that the routine is registered before it can finish.
+		// Otherwise a finished routine stays registered, and the client never reconnects.
+		c.mu.Lock()
 		c.connect()
+		c.mu.Unlock()
 	}
 	return c
 }
